@@ -89,7 +89,7 @@ def main():
     valid = rc0 == 0 and rc1 != 0 and rcb == 0
     print("demo unchanged rc=%d, with change rc=%d, suite with change rc=%d  => %s" % (rc0, rc1, rcb, "VALID" if valid else "INVALID"))
     results = {}
-    if valid:
+    if valid and not os.environ.get("VERIF_MUT_NOCHECK"):   # NOCHECK: validate and store only; the checks are then run by rerun_parallel.py
         rc, out = sh("git -C /repo status --porcelain")
         if out.strip():
             print("/repo is not clean; refusing", out)
@@ -129,7 +129,8 @@ def main():
     meta["caught"] = any(v["rc"] != 0 for v in results.values())
     json.dump(meta, open(os.path.join(dest, "meta.json"), "w"), indent=1)
     # restore evidence files of the checks we ran (they were rewritten against a changed tree)
-    sh("git -C /verif checkout -- evidence")
+    if not os.environ.get("VERIF_MUT_NOCHECK"):
+        sh("git -C /verif checkout -- evidence")
     return 0
 
 
